@@ -422,7 +422,7 @@ def make_cli_spec(rng, **kw):
         "het_fraction": rng.choice([0.4, 0.6, 0.8]),
         "recomb_prob": rng.choice([0.0, 0.0, 0.15, 0.3]),
         "reads_for": reads_for, "reads_mode": reads_mode,
-        "depth": rng.choice([4, 10, 25, 60]),
+        "depth": rng.choice([2, 4, 10, 25, 60]),
         "len_range": rng.choice([[60, 150], [120, 350], [250, 700]]),
         "cost": cost,
         "recombrate": rng.choice([0.01, 1.26, 1000.0, 100000.0, 3000000.0]),
@@ -437,6 +437,7 @@ def make_cli_spec(rng, **kw):
         "merge_reads": rng.random() < 0.1,
         "recomb_list": rng.random() < 0.3,
         "phased_input": rng.choice(members) if rng.random() < 0.15 else None,
+        "noisy_reads": rng.random() < 0.25,
         # three trios = 64 transmission values: keep the coverage per sample at 1-2
         "downsampling": rng.choice([2, 5, 10]) if big else rng.choice([2, 3, 6, 15, 15]),
     }
@@ -535,7 +536,17 @@ def build_cli_inputs(spec, wd):
     reads = []
     for s in spec["reads_for"]:
         for c in sc.chroms:
-            reads += synth.simulate_reads(rng, sc, s, c, spec["depth"], len_range=tuple(spec["len_range"]))
+            if spec.get("noisy_reads"):
+                # half of the reads come from haplotypes with switch errors: conflicting evidence, equal-cost ties
+                n1 = spec["depth"] // 2
+                reads += synth.simulate_reads(rng, sc, s, c, spec["depth"] - n1, len_range=tuple(spec["len_range"]))
+                true = sc.haps[s][c]
+                sc.haps[s][c] = [(b, a) if rng.random() < 0.3 else (a, b) for a, b in true]
+                reads += synth.simulate_reads(rng, sc, s, c, n1, len_range=tuple(spec["len_range"]),
+                                              name_prefix=f"{s}_{c}_sw")
+                sc.haps[s][c] = true
+            else:
+                reads += synth.simulate_reads(rng, sc, s, c, spec["depth"], len_range=tuple(spec["len_range"]))
     if not reads:
         # whatshap rejects an alignment file without any mapped read: add one read of a sample that is not in the VCF
         c = sc.chroms[0]
